@@ -695,7 +695,8 @@ const (
 	st4SigNoDigit    = "stats/addSegStatsStrIngestion/no-digit-string"
 	st4SigNanInf     = "stats/AddSegStatsStr/nan-inf-string"
 	st4SigHexUnd     = "stats/AddSegStatsStr/hex-or-underscore-string"
-	st4SigRecCount   = "stats/groupby-avg-count/record-count" // count(x) of a group = its records: still a known finding
+	st4SigRecCount   = "stats/groupby-avg-count/record-count" // count(x) of a group = its records: repaired (c04-11)
+	st4SigNumStr     = "stats/groupby-numeric-string/ignored" // numeric text ignored by sum/avg, compared as text by min/max: repaired (c04-13)
 	st4SigAvgRecs    = "stats/groupby-avg/record-count"       // avg divided by the records of the group: repaired (c04-7)
 	st4SigTextFirst  = "stats/groupby-minmax/text-before-number"
 	st4SigSumOvf     = "stats/int64-sum-overflow"
@@ -794,14 +795,15 @@ func st4CVOr(der map[string]sutils.CValueEnclosure, k string) string {
 	return "-"
 }
 
-// the property statement on the group-by bucket results.  Numeric values here = ints and floats; whether a
-// numeric-looking STRING counts for a group-by measure is left open (no check when one is present).
+// the property statement on the group-by bucket results.  Numeric values = ints, floats and strings in decimal number
+// syntax, as for the statistics without a by clause (C04: "numeric-string fields"; before patch c04-13 the bucket took
+// every string for text: class stats/groupby-numeric-string/ignored).
 func st4CheckRB(site string, ref *st4Ref, n uint64, der map[string]sutils.CValueEnclosure, cands []st4Cand) []PropFail {
 	var fails []PropFail
 	if ref.total == 0 {
 		return nil
 	}
-	if ref.classes["str-dec"] || ref.classes["str-special"] || ref.classes["str-fastonly"] {
+	if ref.classes["str-special"] || ref.classes["str-fastonly"] {
 		return nil
 	}
 	fail := func(fn, msg string) {
@@ -852,6 +854,7 @@ func st4CandsRB(ref *st4Ref) []st4Cand {
 	return []st4Cand{
 		{st4SigSumOvf, ref.absInts.Cmp(st4Two63) >= 0, "sum avg"},
 		{st4SigRecCount, ref.hasAbsent, "count"},
+		{st4SigNumStr, ref.classes["str-dec"], "sum avg min max range split"},
 		{st4SigAvgRecs, (ref.hasAbsent || len(ref.strs) > 0) && len(ref.nums) > 0, "avg"},
 		{st4SigTextFirst, ref.textBeforeNumber, "min max range"},
 		{st4SigTextFirst, ref.nStr > 0 && ref.nIntFloat > 0, "split"},
